@@ -1436,7 +1436,14 @@ where
         // Per-token dedup buffer, reused across query terms so a multi-term
         // query does not reallocate a fresh map for every term.
         let mut valid: FxHashMap<u64, (f32, f32)> = FxHashMap::default();
-        for query_token in query_terms.keys() {
+        // Accumulate in a fixed (sorted) token order: `query_terms` is a randomly
+        // seeded `HashMap` and f32 addition is not associative, so iterating it
+        // directly made the score bits of a multi-term query -- and, between
+        // near-tied documents, the ranking itself -- differ from one identical
+        // call to the next.
+        let mut query_tokens: Vec<&String> = query_terms.keys().collect();
+        query_tokens.sort_unstable();
+        for query_token in query_tokens {
             if let Some(postings) = self.postings.get(query_token) {
                 // Single-pass: collect doc_id -> (tf, doc_len) for valid documents
                 // in one sweep over the postings.
